@@ -256,8 +256,12 @@ def atoi (s : Bytes) : Int :=
 
 /-- `NUMMAX` of ex.c: numbers in addresses saturate here -/
 def NUMMAX : Int := 536870912
+/-- `TERMMAX` of ex.c: the numbers of an address saturate here before they are added -/
+def TERMMAX : Int := 1099511627776
+/-- `ex_num(s, max)`: `strtoll` saturated at ±max (a number beyond 64 bits saturates in `strtoll` already) -/
+def exNum (s : Bytes) (mx : Int) : Int := max (-mx) (min (atoi s) mx)
 /-- `ex_atoi`: `atoi` that saturates instead of wrapping around -/
-def exAtoi (s : Bytes) : Int := max (-NUMMAX) (min (atoi s) NUMMAX)
+def exAtoi (s : Bytes) : Int := exNum s NUMMAX
 
 /-- `re_read(&src)`: (pattern or NULL, rest) -/
 def reRead (src : Bytes) : Option Bytes × Bytes :=
@@ -330,7 +334,7 @@ def exLineno (ed : Ed) (loc : Bytes) : R (Int × Bytes) :=
       match exSearch ed loc with
       | none => none
       | some ((n, rest), ed) => if n < 0 then some ((-1000000, rest), ed) else some ((n, rest), ed)
-    else if isDigitC c then some ((exAtoi loc - 1, loc.dropWhile isDigitC), ed)
+    else if isDigitC c then some ((exNum loc TERMMAX - 1, loc.dropWhile isDigitC), ed)
     else some ((ed.xrow, loc), ed)
   match base with
   | none => none
@@ -339,9 +343,10 @@ def exLineno (ed : Ed) (loc : Bytes) : R (Int × Bytes) :=
     let rec offs : Nat → Int → Bytes → Int × Bytes
       | 0, n, s => (n, s)
       | f + 1, n, s =>
-        if s.headD 0 == 45 || s.headD 0 == 43 then offs f (max (-NUMMAX) (min (n + exAtoi s) NUMMAX)) ((s.drop 1).dropWhile isDigitC) else (n, s)
+        if s.headD 0 == 45 || s.headD 0 == 43 then offs f (n + exNum s TERMMAX) ((s.drop 1).dropWhile isDigitC) else (n, s)
     let (n, rest) := offs (rest.length + 1) n rest
-    some ((n, rest), ed)
+    -- the sum is exact (64 bits in C: at most EXLEN / 2 terms below 2^40); only the line number saturates
+    some ((max (-NUMMAX) (min n NUMMAX), rest), ed)
 
 /-- `ex_region(loc, &beg, &end)`: (return value, beg, end) -/
 def exRegion (ed : Ed) (loc : Bytes) : R (Nat × Int × Int) :=
